@@ -45,7 +45,8 @@ def wrap_stmt(stmt):
 
 def sv(model, ent):
     cur = model.get(ent)
-    return ("sv", cur[0], tuple(sorted((k, repr(v)) for k, v in cur[1].items())), ent, "datetime")
+    # in a snapshot an attribute named like a virtual field is hidden by that field
+    return ("sv", cur[0], tuple(sorted((k, repr(v)) for k, v in cur[1].items() if k not in VIRTUAL)), ent, "datetime")
 
 
 # each op: (name, kind, payload).  kinds: code (script side), ext (external)
@@ -73,6 +74,10 @@ def ops():
     out.append(("set_newattr_empty", "code"))
     out.append(("setattr_b", "code"))
     out.append(("setattr_b_none", "code"))
+    out.append(("set_kw_entity_id", "code"))
+    out.append(("read_virt_entity_id", "code"))
+    out.append(("snapmod", "code"))
+    out.append(("read_zz", "code"))
     out.append(("set_kw_context", "code"))
     out.append(("attr_assign_context", "code"))
     out.append(("read_context", "code"))
@@ -186,6 +191,27 @@ def step(m, op):
         attrs["b"] = [1]
         sm.set(E1N, None, attrs)
         return wrap_stmt("state.setattr('pyscript.e1.b', [1])"), ("ok", None)
+    if op == "set_kw_entity_id":
+        # an attribute that is named like a virtual field is stored, but reading NAME.entity_id still gives the entity's id
+        if not exists:
+            return None, None
+        attrs = dict(cur[1])
+        attrs["entity_id"] = ["m1", "m2"]
+        sm.set(E1N, None, attrs)
+        return wrap_stmt("state.set('pyscript.e1', entity_id=['m1', 'm2'])"), ("ok", None)
+    if op == "read_virt_entity_id":
+        code = wrap("(pyscript.e1.entity_id, state.get('pyscript.e1').entity_id)")
+        return code, (("ok", ("v", repr((E1N, E1N)))) if exists else NE)
+    if op == "snapmod":
+        # a captured snapshot is the script's own object: changing it changes nothing else
+        if m.snap is None:
+            return None, None
+        attrs = dict(m.snap[2])
+        attrs["zz"] = "1"
+        m.snap = (m.snap[0], m.snap[1], tuple(sorted(attrs.items())), m.snap[3], m.snap[4])
+        return wrap_stmt("snaps['s'].zz = 1"), ("ok", None)
+    if op == "read_zz":
+        return wrap("pyscript.e1.zz"), (AE if exists else NE)
     if op == "setattr_b_none":
         # an attribute whose value is None is an attribute like any other (it exists, can be read and deleted)
         if not exists:
@@ -400,7 +426,7 @@ def bounds(tier):
             "precedence_configs": 16}
 
 
-QUICK_SKIP = ("set_kw_context", "attr_assign_context", "read_context")
+QUICK_SKIP = ("set_kw_context", "attr_assign_context", "read_context", "set_kw_entity_id")
 
 
 def reachable(tier="thorough"):
@@ -427,6 +453,8 @@ def plan(tier, seed):
     depth = 3 if tier == "thorough" else 2
     n1 = 64 if tier == "thorough" else 16
     shards += [("e1", depth, k, n1) for k in range(n1)]
+    # snapshots are the script's own objects: all sequences of length 3 (4) over the operations that capture, change and re-read them
+    shards += [("e1snap", 4 if tier == "thorough" else 3, k, 4) for k in range(4)]
     return shards
 
 
@@ -452,6 +480,12 @@ def run_shard(shard):
                     continue
                 seq = tuple(path) + (op,)
                 _record(res, seq, "e2", key)
+        return res
+    if shard[0] == "e1snap":
+        _, depth, k, n = shard
+        for i, seq in enumerate(EX.sequences(["snap", "snapmod", "read", "read_zz", "snap_check", "getattr", "attr_assign_a2"], depth)):
+            if i % n == k:
+                _record(res, seq, f"e1snap{depth}", None)
         return res
     _, depth, k, n = shard
     for i, seq in enumerate(EX.sequences(OPNAMES, depth)):
